@@ -81,3 +81,55 @@ def run(ctx):
         I = [col for col in plain["cols"]][1]
         if len(plain["times"]) != len(I):
             ctx.violation("fast_nonMarkov_SIS arrays of different lengths", dict(rep, arrays=plain))
+    generated_model(ctx, reqs, metas)
+
+
+def generated_model(ctx, reqs, metas):
+    """the Lean code GENERATED from fast_nonMarkov_SIS, _process_trans_SIS_nonMarkov_, _process_rec_SIS_ and myQueue
+    (harness/pyevent2lean.py -> Gen/EventSISGen.lean), run by its own driver with the same per-infection duration / delay
+    tables as the implementation.  Compared: times / S / I (array mode), the transmission list and every node's
+    infection and recovery times (full-data mode) — in the order the code produced them, simultaneous events included."""
+    import fcntl, subprocess, os, pyevent2lean
+    lean = common.LEAN
+    os.makedirs(os.path.join(lean, ".audit"), exist_ok=True)
+    with open(os.path.join(lean, ".audit", "genes.lock"), "w") as lock:
+        fcntl.flock(lock, fcntl.LOCK_EX)
+        try:
+            _, errors = pyevent2lean.regenerate(which=("nmsis",))
+        except Exception as e:
+            errors = {"translator": "crashed: %r" % e}
+        if errors:
+            ctx.disagreement("generated-nmsis:translation", dict(entry="fast_nonMarkov_SIS", errors=errors))
+            return
+        p = common.lake(["build", "driverns"])
+    if p.returncode != 0:
+        ctx.disagreement("generated-nmsis:build", dict(entry="fast_nonMarkov_SIS", log="\n".join(
+            l for l in (p.stdout + p.stderr).splitlines() if "error" in l)[:1500]))
+        return
+    exe = os.path.join(lean, ".lake", "build", "bin", "driverns")
+    data = "\n".join(json.dumps(r, separators=(",", ":")) for r in reqs) + "\n"
+    q = subprocess.run([exe], input=data, capture_output=True, text=True)
+    lines = q.stdout.splitlines()
+    if q.returncode != 0 or len(lines) != len(reqs):
+        raise RuntimeError("driverns crashed: " + q.stderr[-1000:])
+    for (rep, full, plain, c), line in zip(metas, lines):
+        g = json.loads(line)
+        ctx.count("generated-model-runs")
+        if not g.get("ok"):
+            ctx.disagreement("generated-nmsis-error", dict(rep, generated=g))
+            continue
+        d = []
+        if plain["times"] != g["times"] or plain["cols"] != [g["S"], g["I"]]:
+            d.append("arrays")
+        if full["transmissions"] != g["trans"]:
+            d.append("transmissions")
+        inf = {u: ts for u, ts in g["infection_times"]}
+        rec = {u: ts for u, ts in g["recovery_times"]}
+        for u, h in enumerate(full["history"]):
+            ti = [t for t, s_ in h if s_ == "I"]
+            tr_ = [t for t, s_ in h[1:] if s_ == "S"]
+            if ti != inf.get(u, []) or tr_ != rec.get(u, []):
+                d.append("node %d infection/recovery times" % u)
+                break
+        if d:
+            ctx.disagreement("generated-nmsis:" + ";".join(d), dict(rep, diffs=d, impl=dict(times=plain["times"][:20]), generated=dict(times=g["times"][:20])))
